@@ -264,8 +264,8 @@ theorem caught_error_keeps_heart_beat (w : World) (self : Nat) :
     list is untouched; `heart_beat_index` keeps its (possibly stale) value and `num_hb_to_do = num_hb_objs` stays
     non-zero until the next real round, so removals in between are "compensated" (harmless: `hb_index_in_bounds`) -/
 theorem no_round_without_heartbeat_flag (sc : Scripts) (w : World) (h : hbOn w.tflags = false) :
-    (tickCore sc w).2 = [.tickOff, .tickEnd] ∧ (tickCore sc w).1.hbs = w.hbs ∧ (tickCore sc w).1.idx = w.idx ∧
-    (tickCore sc w).1.todo = (w.hbs.length : Int) ∧ (tickCore sc w).1.cur = none ∧ (tickCore sc w).1.flag = false := by
+    (tickRound sc w).2 = [.tickOff, .tickEnd] ∧ (tickRound sc w).1.hbs = w.hbs ∧ (tickRound sc w).1.idx = w.idx ∧
+    (tickRound sc w).1.todo = (w.hbs.length : Int) ∧ (tickRound sc w).1.cur = none ∧ (tickRound sc w).1.flag = false := by
   rw [tick_eq_ref]
   unfold tickRef
   rw [h]
@@ -275,7 +275,7 @@ example : hbOn 0 = false ∧ hbOn 1 = false ∧ hbOn 2 = true ∧ hbOn 3 = true 
 
 /-- with the flag set and a non-empty list the round starts at index 0 with `num_hb_to_do = num_hb_objs` -/
 theorem round_entered_iff (sc : Scripts) (w : World) :
-    (tickCore sc w).2.head? = some (if hbOn w.tflags then Ev.tickBegin else Ev.tickOff) := by
+    (tickRound sc w).2.head? = some (if hbOn w.tflags then Ev.tickBegin else Ev.tickOff) := by
   rw [tick_eq_ref]
   unfold tickRef
   cases hbOn w.tflags with
